@@ -209,6 +209,7 @@ namespace sx {
     unsigned prove_timeout_ms  = 5000;
     long max_paths         = 200000;
     bool concretise_any    = false;  // (int)x picks a model value (see DESIGN C02)
+    bool concretise_enum   = false;  // with concretise_any: the picked value is a decision, the other values are explored too (up to K per site)
     bool ax_sqrt           = false;  // ground axioms sqrt(x)^2 = x, sqrt(x) >= 0
     bool ax_trig           = false;  // -1<=sin,cos<=1, sin^2+cos^2=1 per argument
     bool ax_log            = false;  // log(u)<0 for 0<u<1 ; exp(x)>0
